@@ -203,6 +203,7 @@ func runC09(c *Ctx) {
 		base.Named("svc"),
 		base.WithLazy(zap.String("a", "b")).With(zap.Int("c", 1)),
 		base.WithLazy(zap.Int("l1", 1)).WithLazy(zap.Int("l2", 2)),
+		base.With(zap.Int("x", 1), zap.Namespace("open")), // context ends in a namespace that stays open
 		base.With(zap.Reflect("ctx", map[string]any{"k": []int{1, 2}}), zap.Int("after", 1)),
 		base.With(zap.Any("cfg", struct{ A, B int }{1, 2})).Named("r"),
 		base.Named("r2").With(zap.Reflect("m", map[string]string{"x": "y"})),
@@ -358,6 +359,8 @@ func c09exec(c *Ctx, w *c09world, t, i int, op c09op) {
 		} else if op.c%4 == 2 {
 			// from a deep call stack (stack capture beyond the pooled capacity)
 			c8recurse([]int{70, 130, 300}[op.c/4%3], func() { l.Log(lv, "deep", zap.Int("t", t), zap.Stack("st")) })
+		} else if op.c%8 == 3 {
+			l.Log(lv, "no call-site fields")
 		} else {
 			l.Log(lv, "m", zap.Int("t", t), zap.Int("i", i), zap.Duration("d", time.Second), zap.Error(errors.New("e")))
 		}
